@@ -443,6 +443,19 @@ theorem connect_tcp_v4 (tbl : V6Tbl) (ip p : Nat) (hip : ip < 4294967296) (hp : 
   refine ⟨_, rfl, connect_tcp_interpreted tbl _ ch bs _ (text_roundtrip_v4 tbl ip p hip hp) rfl⟩
 
 open Http in
+/-- instantiation: every host name that the connector does not refuse and that std does not read as a socket address -/
+theorem connect_tcp_domain (tbl : V6Tbl) (h : Bytes) (p : Nat) (hp : p < 65536) (ch bs : Bytes)
+    (hhost : hostOkForConnect (.domain h p) = true)
+    (hnot4 : Addr.parseSock4 (h ++ [Addr.colon] ++ showNat p) = none)
+    (hnot6 : ∀ e ∈ tbl, e.1 ≠ h ++ [Addr.colon] ++ showNat p) :
+    ∃ req, connectRequest tbl (.domain h p) .tcp ch bs = some req ∧ interpret tbl req = .tcp (.domain h p) := by
+  have hreq : ∃ req, connectRequest tbl (.domain h p) .tcp ch bs = some req := by
+    unfold connectRequest
+    simp [hhost]
+  obtain ⟨req, hreq⟩ := hreq
+  exact ⟨req, hreq, connect_tcp_interpreted tbl _ ch bs req (text_roundtrip_domain tbl h p hp hnot4 hnot6) hreq⟩
+
+open Http in
 /-- a host name containing a framing byte (space, CR, LF, TAB, DEL, any control) is refused before anything is written:
 the request line can never be re-split into a different destination -/
 theorem connect_refuses_framing_bytes (tbl : V6Tbl) (h : Bytes) (p : Nat) (f : Feature) (ch bs : Bytes) (b : Nat)
